@@ -6,7 +6,10 @@ open MapModel
 
 let parse_op (s : string) : op =
   match split_on ':' s with
-  | ["S"; a; e; m; ok] -> OpSet (n_of_hex a, n_of_hex e, z_of_hex m, ok = "1")
+  (* last field: "1" all allocations succeed, "0" the first realloc of the call fails,
+     "k" (k >= 2) the k-th fails; map.c calls realloc at most once per set, so k >= 2 never
+     fails anything in the model *)
+  | ["S"; a; e; m; ok] -> OpSet (n_of_hex a, n_of_hex e, z_of_hex m, ok <> "0")
   | ["Q"; a] -> OpSearch (n_of_hex a)
   | ["C"; a1; a2] -> OpCopy (a1 = "1", a2 = "1")
   | _ -> failwith ("bad op " ^ s)
@@ -54,7 +57,10 @@ let spec_case (line : string) : string =
              match bad with [] -> "ok"
              | x :: _ -> "set changed/kept the wrong value at address " ^ hex_of_n x
            end else if out = "S4" then
-             (if ok then "NOMEM although the allocation succeeded"
+             (* the property: a set that fails for lack of memory leaves the map unchanged;
+                it may only fail when some allocation was made to fail *)
+             (let injected = (match Stdlib.List.rev (split_on ':' ops) with f :: _ -> f <> "1" | [] -> false) in
+              if not injected then "NOMEM although no allocation failed"
               else if ma <> mb then "map changed by a failed set" else "ok")
            else "unexpected status " ^ out
        | OpSearch a ->
